@@ -24,14 +24,15 @@ def gen_case(rng):
     m = eamlib.gen_model(rng, fs=True, potable=potable, kmax=(4 if fmt != "DL_POLY_EAM_fs" else 4))
     if potable:
         eamlib.make_potable_variants(rng, m)
-    return dict(route="%s/%s" % (fmt, how), fmt=fmt, how=how, model=m, target=fmt)
+    # (dictionaries with __missing__ are not given to the Excel classes: they list a dictionary's items instead of looking entries up - outside this property's formats' contract)
+    return dict(route="%s/%s" % (fmt, how), fmt=fmt, how=how, model=m, target=fmt, api_variant=None if potable else eamlib.api_variant(rng, m, allow_missing_dict=(fmt != "excel_eam_fs")))
 
 
 def run_impl(case):
     m, fmt, how = case["model"], case["fmt"], case["how"]
     binary = fmt == "excel_eam_fs"
     if how in ("func", "class"):
-        pots, eams = eamlib.build_objects(m)
+        pots, eams = eamlib.build_objects(m, variant=case.get("api_variant"))
         s = io.BytesIO() if binary else io.StringIO()
         args = (pots, eams, float(m["cut"]), m["nr"], float(m["cutrho"]), m["nrho"])
         d = eamlib.direct_args(m)
